@@ -9,6 +9,7 @@ titles = {json.loads(l)["id"]: json.loads(l)["title"] for l in open(os.path.join
 kf = json.load(open(os.path.join(ROOT, "known_findings.json")))["findings"]
 out = ["<!-- ASBUILT-BEGIN -->"]
 tot = 0
+tie_tot = 0
 for pid in ids:
     cp = os.path.join(ROOT, "props", pid + ".json")
     if not os.path.exists(cp):
@@ -32,6 +33,27 @@ for pid in ids:
         ("; partial: " + ", ".join("`%s`" % n for n in par)) if par else "",
         ("; refuted (machine-checked witnesses of findings / of statements that are false of the faithful model): " + ", ".join("`%s`" % n for n in ref)) if ref else ""))
     out.append("*Tie (what the correspondence and the direct oracle compare; generator rule).* %s\n" % c.get("rule", ""))
+    # translator ties: the property's own (props "gen"/"gen_files"/"coq_targets") and the coordinator's (gen_ties.json)
+    gt = {}
+    gp = os.path.join(ROOT, "gen_ties.json")
+    if os.path.exists(gp):
+        gt = json.load(open(gp)).get(pid, {})
+    gens = list(c.get("gen", [])) + [g for g in gt.get("gen", []) if g not in c.get("gen", [])]
+    gfiles = list(c.get("gen_files", [])) + [f for f in gt.get("files", []) if f not in c.get("gen_files", [])]
+    for t in c.get("coq_targets", []):
+        f = t[:-1] if t.endswith(".vo") else t
+        if "GenAgree" in f and f not in gfiles:
+            gfiles.append(f)
+    if gens:
+        tn = []
+        for f in gfiles:
+            fp = os.path.join(ROOT, "coq", f)
+            if os.path.exists(fp):
+                fs_ = re.sub(r"\(\*.*?\*\)", "", open(fp).read(), flags=re.S)
+                tn += re.findall(r"^\s*(?:Theorem|Corollary)\s+([A-Za-z0-9_']+)", fs_, flags=re.M)
+        tie_tot = tie_tot + len(tn)
+        out.append("*Translator tie (regenerated from /repo's source on every run by `tools/go2v`, proved equal to the model; proof obligations of this property).* extractors: %s; agreement files: %s; agreement theorems (%d): %s\n" % (
+            ", ".join("`%s`" % g for g in gens), ", ".join("`coq/%s`" % f for f in gfiles) or "-", len(tn), ", ".join("`%s`" % n for n in tn) or "-"))
     if c.get("mismatch_is_failure"):
         out.append("*Refinement verdict.* `mismatch_is_failure` with spec theorems %s.\n" % ", ".join("`%s`" % t for t in c.get("spec_theorems", [])))
     if c.get("partial"):
@@ -44,7 +66,7 @@ for pid in ids:
     if fs:
         out.append("*Findings.*\n" + "\n".join("* %s (%s%s): %s" % (f.get("id"), f.get("status"), (" " + f.get("commit")) if f.get("commit") else "",
                     (f.get("what") or f.get("line") or "").replace("\n", " ")[:400]) for f in fs) + "\n")
-out.append("Total: %d theorems in `coq/Props/*.v`.\n" % tot)
+out.append("Total: %d theorems in `coq/Props/*.v`, %d agreement theorems in `coq/Proofs/GenAgree*.v`.\n" % (tot, tie_tot))
 out.append("<!-- ASBUILT-END -->")
 p = os.path.join(ROOT, "DESIGN.md")
 s = open(p).read()
